@@ -5,7 +5,7 @@ from . import e2e, outparse, quicsynth, scene, suites, tcpcap, tlssynth
 
 
 def random_tls_flow(rng, idx=0, ep=None, nmax=12, big=False, segkinds=("mss", "random", "whole", "records", "tail1"), version=None, code=None, sport=443, v6=None,
-                    min_records=0, perturb=False, resume_of=None, duplex=False, repack=False, hrr=False, compress=False):
+                    min_records=0, perturb=False, resume_of=None, duplex=False, repack=False, hrr=False, compress=False, tfo=None):
     """resume_of: an earlier TLS <= 1.2 flow whose session this one resumes (same version, suite and master secret, fresh randoms)"""
     mx = suites.matrix()
     if version is None:
@@ -27,6 +27,11 @@ def random_tls_flow(rng, idx=0, ep=None, nmax=12, big=False, segkinds=("mss", "r
     ep = ep or tcpcap.random_ep(rng, v6=v6, sport=sport)
     segkind = rng.choice(list(segkinds))
     segs = tcpcap.segments(conn.events, ep, tcpcap.make_cutter(rng, segkind, conn.events))
+    if tfo is None:
+        tfo = rng.choice([False] * 10 + [True, "both"])
+    if tfo:         # TCP Fast Open: the first ClientHello segment on the SYN
+        segs, ok = tcpcap.add_tfo(segs, server=tfo == "both")
+        segkind += "+tfo" if ok else ""
     if perturb:     # same byte streams, perturbed delivery: retransmitted duplicates and bounded reordering
         segs = tcpcap.displace(tcpcap.add_duplicates(segs, rng, rng.choice([0, 1, 3])), rng, rng.choice([1, 2, 4]), maxdist=rng.choice([1, 2, 3]))
         segkind += "+reordered"
